@@ -1,8 +1,8 @@
 """check configuration for C09"""
 
 CFG = {'module': 'Dnp3.Props.C09',
- 'gen': ['Variations.lean', 'Qualifiers.lean', 'AppCodes.lean'],
- 'engines': ['parse', 'db', 'outstationdb'],
+ 'gen': ['Variations.lean', 'Qualifiers.lean', 'AppCodes.lean', 'Attrs.lean'],
+ 'engines': ['parse', 'attr', 'db', 'outstationdb'],
  'monitors': None,
  'exhaustive_thorough': True,
  'rule': 'engine parse: (1) application header: every control octet x function octets (thorough: all 256; '
@@ -21,7 +21,21 @@ CFG = {'module': 'Dnp3.Props.C09',
          'levels under catch_unwind. distinct = distinct canonical op lists Engines db and outstationdb (the '
          'real Database / the real OutstationTask over a populated database, see C11): every response and '
          'unsolicited fragment the database writers emit, at every capacity and resumption point, is decoded '
-         'by an independent decoder and compared with the mirrored reference database.',
+         'by an independent decoder and compared with the mirrored reference database. Engine attr (device '
+         'attributes, group 0): attribute sets defined through the real Database::define_attr (every value '
+         'kind x boundary values: lengths 0 / 1 / 127 / 128 / 254 / 255 / 256 / 300, integers around every '
+         'width boundary, float specials, times; default set with demanded and other types; private sets; '
+         '0..253 attributes per set), READ of g0 (specific variation, v254, v255, 8- and 16-bit ranges, '
+         'qualifier 0x06, more headers than the selection queue holds) answered by the real response '
+         'writers into cursors of 5..2048 octets (fixed classes 245 / 249 / 292 / 1024 / 2044 / 2048, '
+         'random, and boundaries placed at object size +-0/1/2/5/6/7), every list length 1, 2, 3, 63, 126..131, '
+         '200, 252, 253 (thorough: all 1..253) at capacities size-1 / size / size+1; every emitted fragment '
+         'parsed by ParsedFragment::parse and by an independent reference decoder; the master WRITE builder '
+         '(Headers::add_attribute) at capacities 0..2048; WRITE of attributes then read back; the parser on '
+         'generator-made objects: type code x length octet x payload presence grid (thorough: all 256 type '
+         'codes), list boundaries 0 / 1 / 127 / 128 / 129 / 255 entries in both encodings with the usual '
+         'mistakes, random object sequences with truncation / extension / mutation / insertion, qualifiers '
+         '0x00 0x01 0x06 0x17 0x28, function codes 1 2 3 129 130.',
  'trusted_base': ['hand-written Lean model of app/parse/parser.rs (header walk), range.rs, count.rs, bit.rs, '
                   'bytes.rs, prefix.rs, free_format.rs, attr.rs (AttrValue::parse, parse_from_range, '
                   'parse_prefixed), file/g70v*.rs (read), header.rs, str::from_utf8; tied by differential '
@@ -36,12 +50,25 @@ CFG = {'module': 'Dnp3.Props.C09',
                   'iterators / builders; no behaviour change)',
                   'reference object sizes (IEEE 1815) and reference validation rules inside '
                   'harness/src/eng_parse.rs',
+                  'hand-written Lean model of app/attr.rs (OwnedAttrValue::write, AttrValue::parse with values, '
+                  'VariationListIter), outstation/database/details/attrs/** (SetMap::define / maybe_write, '
+                  'AttrHandler::select, Selection::write_all, write_attr_list, get_list_encoding), '
+                  'HeaderWriter::write_attribute and Headers::write (Model/Attr.lean) tied by differential '
+                  'execution (engine attr); attribute type codes, named default-set variations and their '
+                  'demanded types, reserved / writable variations, list-length constants, selection limits: '
+                  'regenerated from source (Gen/Attrs.lean)',
+                  'hooks/attr_probe.rs (exposes the attribute database, response writers, request builder and '
+                  'parser; no behaviour change); reference attribute decoder (IEEE 1815 attribute data types) '
+                  'and READ bookkeeping inside harness/src/eng_attr.rs',
                   'hand-written Lean model of outstation/database/** (event buffer, static database, '
                   'response writers) tied by differential execution of the real Database (engine db) and of '
                   'the real OutstationTask (engine outstationdb)'],
  'assumptions': ['octets are values < 256',
-                 'group 0 attribute values and group 70 file objects: accepted / rejected and consumed '
-                 'length are modelled and compared; their decoded field values are not itemised (objs -)',
+                 'group 70 file objects: accepted / rejected and consumed length are modelled and compared; '
+                 'their decoded field values are not itemised (objs -); group 0 attribute values are itemised '
+                 'by engine attr',
+                 'floating-point attribute values are their IEEE-754 bit patterns (no float arithmetic is '
+                 'involved in encoding or parsing)',
                  'outstation response writers (range/event/prefix writers) are exercised by the outstation '
                  'engine, not here'],
  'level_text': 'Lean theorems about the object-header grammar model for all octet strings: SIZE = sum of '
@@ -53,9 +80,19 @@ CFG = {'module': 'Dnp3.Props.C09',
                'master\'s count-and-prefix header writer (CommandBuilder -> write_prefixed_items: for every '
                'capacity, buffer content, index width and item list the header is either written completely '
                '- exactly its image, which parses back to the items that were built - or the write fails '
-               'with a WriteError, in particular when the count is not expressible in the index type); model '
+               'with a WriteError, in particular when the count is not expressible in the index type); device '
+               'attributes (group 0): parse (encode v) = v consuming exactly the encoded octets for every value '
+               'of every kind, the attribute list for every length 0..255 in both encodings (none beyond), the '
+               'parser accepts a value iff the octets are exactly what type code and length octet imply, '
+               'agreement of the typed value parser with the object walk, and for the outstation response '
+               'writer at every capacity, cursor content and selection: a fragment is its prior content plus '
+               'whole objects, which parse back, and across fragments the series is exactly the objects the '
+               'READ denotes; model '
                'tied to the code by the regenerated tables and by differential execution of the real parser, '
                'iterators, Display and builders',
  'level_note': 'trusted: Lean kernel (+ propext/Classical.choice/Quot.sound), translate.py + '
                'gen_variations.py, the correspondence harness; the Rust is modelled, not verified',
- 'engine_monitors': {'db': ['response_well_formed'], 'outstationdb': ['fits_and_parses']}}
+ 'engine_monitors': {'db': ['response_well_formed'], 'outstationdb': ['fits_and_parses'],
+                     'attr': ['attr_response_parses_back', 'attr_fragment_is_whole_objects',
+                              'attr_parser_accepts_only_exact', 'attr_request_parses_back',
+                              'response_within_capacity', 'no_panic']}}
